@@ -548,3 +548,15 @@ Proof.
   split; [vm_compute; reflexivity|]. split; [vm_compute; reflexivity|].
   eexists. split; [vm_compute; reflexivity|]. split; vm_compute; reflexivity.
 Qed.
+
+(* A validly encoded U+FFFD (EF BF BD) is ordinary text: ToValidUTF8 keeps it (only invalid
+   bytes are dropped), and an event carrying it in a middle, in the last parameter, in the
+   source and in a tag value is well-formed, so C01_encode_parse applies to it. *)
+Example replacement_character_kept :
+  to_valid_utf8 [] [99; 239; 191; 189; 255; 239; 191; 100] = [99; 239; 191; 189; 100]
+  /\ wf_event (mkWEvent (Some [(bs "k", [239; 191; 189])])
+                        (Some (mkWSource [110; 239; 191; 189] [239; 191; 189] (bs "h")))
+                        (bs "FOO") [[239; 191; 189]; bs "a"; [99; 97; 102; 239; 191; 189; 32; 97; 117]])
+  /\ event_bytes (mkWEvent None None (bs "FOO") [[239; 191; 189]; [239; 191; 189]])
+     = bs "FOO " ++ [239; 191; 189; 32; 239; 191; 189].
+Proof. vm_compute. repeat split; reflexivity. Qed.
